@@ -140,8 +140,12 @@ class Check:
               "level": "model_checking", "coverage": cov, "assumptions": self.assumptions,
               "wall_s": round(wall, 2), "violations": len(self.violations)}
         if not getattr(self, "replay", None):     # a replay re-judges one case; the evidence describes a full run
-            os.makedirs(os.path.join(ROOT, "evidence"), exist_ok=True)
-            with open(os.path.join(ROOT, "evidence", self.pid + ".json"), "w") as f:
+            # evidence/ describes runs against /repo itself; a run against another tree (VERIF_REPO, seeded regressions)
+            # leaves its record under .work/
+            other = os.environ.get("VERIF_REPO", "/repo").rstrip("/") != "/repo"
+            evdir = os.path.join(ROOT, ".work", "evidence-other-tree") if other else os.path.join(ROOT, "evidence")
+            os.makedirs(evdir, exist_ok=True)
+            with open(os.path.join(evdir, self.pid + ".json"), "w") as f:
                 json.dump(ev, f, indent=1, default=str)
         print("%s %s: %s  states=%d transitions=%d impl_traces=%d evaluations=%d distinct=%d wall=%.1fs" % (
             self.pid, self.tier, "VIOLATED" if self.violations else "held",
